@@ -51,6 +51,7 @@ def rand_case(rng, quick, i):
     if flavour == 2:
         c["sigma"] = "E"
         c["steps"] = 2
+        c["sigma_scale"] = [1.0, 64.0, 2048.0][(i // 4) % 3]      # weak loss, f of order 1, strongly conducting cells (f >> 1)
     if flavour == 3 and not quick:
         c["pow2"] = False
         c["steps"] = 2
